@@ -6,7 +6,8 @@ Real code driven (in-process, from $VERIF_REPO):
   through `add_protocol(SetupData(...))` + `connect()` exactly as pyatv.connect does;
 * a recording stub Audio (guards), the real pyatv.protocols.companion.CompanionAudio (fake
   CompanionAPI playing the device), the real pyatv.protocols.raop.RaopAudio over the real
-  RaopPlaybackManager / StreamContext / StreamClient (fake RTSP session), the real
+  RaopPlaybackManager / StreamContext / StreamClient / RaopStream.stream_file (fake RTSP
+  session = the receiver, audio file and network parts of the client stubbed), the real
   pyatv.protocols.mrp.MrpAudio (fake MrpProtocol: records sends, plays the device).
 
 Floats never cross the Lean wire: a float is `nan`, `+inf`, `-inf` or the exact rational
@@ -23,7 +24,9 @@ from .core import vloop
 
 RULE = ("inputs: IEEE special values (NaN, +-inf, +-0.0, subnormals, neighbours of 0/100/-30/-144), a dense grid "
         "over and around [0,100] % and [-30,0] dBFS, seeded random doubles; histories: seeded random sequences of "
-        "set/up/down/read/device-report over the real facade+RaopAudio and facade+MrpAudio (specials included), plus a "
+        "set/up/down/read/device-report over the real facade+RaopAudio and facade+MrpAudio (specials included), with RAOP "
+        "stream starts (real RaopStream.stream_file; receiver advertising any / no initialVolume; every fixed level incl. "
+        "0.0 and 100.0 set-then-stream-then-read) and MRP volume updates for other output-device UIDs interleaved, plus a "
         "BFS over every state reachable by volume_up/volume_down; non-trivial = input at or outside a boundary, a "
         "special value, or a history containing a rejected set, a clamped step or an out-of-range report; distinct = "
         "(kind, exact input)")
@@ -524,24 +527,104 @@ class Rig:
             self.cur = None
 
 
+_PATCHED = {}
+
+
+def patch_raop():
+    """stream_file opens the audio file and reads credentials through two module-level
+    names; the harness replaces them (from the harness process only) while it runs."""
+    import pyatv.protocols.raop as raop_module
+    from pyatv.support.metadata import EMPTY_METADATA
+
+    if _PATCHED:
+        return
+
+    class Source:
+        async def get_metadata(self):
+            return EMPTY_METADATA
+
+        async def close(self):
+            pass
+
+    async def open_source(*args, **kwargs):
+        return Source()
+
+    _PATCHED.update(open_source=raop_module.open_source, extract_credentials=raop_module.extract_credentials)
+    raop_module.open_source = open_source
+    raop_module.extract_credentials = lambda service: None
+
+
+def unpatch_raop():
+    import pyatv.protocols.raop as raop_module
+    for name, orig in _PATCHED.items():
+        setattr(raop_module, name, orig)
+    _PATCHED.clear()
+
+
 class RaopRig(Rig):
     async def setup(self, with_client):
+        patch_raop()
         from pyatv.const import Protocol
         from pyatv.core import CoreStateDispatcher, ProtocolStateDispatcher, UpdatedState
-        from pyatv.protocols.raop import RaopAudio, RaopPlaybackManager
+        from pyatv.protocols.raop import RaopAudio, RaopPlaybackManager, RaopStream
         from pyatv.protocols.raop.stream_client import StreamClient
         from pyatv.settings import Settings
+        from pyatv.support.metadata import EMPTY_METADATA
 
         rig = self
         asyncio.get_event_loop().set_exception_handler(self.loop_exception)
         core = CoreStateDispatcher()
-        self.pm = RaopPlaybackManager(object())
-        if with_client:
-            class Rtsp:
-                async def set_parameter(self, name, value):
-                    assert name == "volume"
-                    rig.sent.append(float(value))
-            self.pm._stream_client = StreamClient(Rtsp(), self.pm.context, None, Settings())
+        self.receiver_info = {}      # what the receiver answers to RTSP /info
+        self.deferred = []           # levels stream_file deferred to send_audio (not expected)
+        self.stream_checks = []
+        self.last_set = None         # last in-range level set by the user, while nothing else changed it
+
+        class Rtsp:                  # the RAOP receiver
+            async def set_parameter(self, name, value):
+                assert name == "volume"
+                rig.sent.append(float(value))
+
+            async def info(self):
+                return dict(rig.receiver_info)
+
+        class FakeStreamProtocol:
+            def teardown(self):
+                pass
+
+        class VerifStreamClient(StreamClient):
+            """Real StreamClient without the network parts of initialize / send_audio."""
+
+            async def initialize(self, properties):
+                self._info.update(await self.rtsp.info())
+
+            async def send_audio(self, source, metadata=EMPTY_METADATA, /, volume=None):
+                if volume is not None:
+                    rig.deferred.append(volume)
+
+        class Service:
+            properties = {}
+            password = None
+            port = 7000
+
+        class FakeCore:
+            service = Service()
+            settings = Settings()
+
+            def takeover(self, *interfaces):
+                return lambda: None
+
+        fake_core = FakeCore()
+        self.pm = RaopPlaybackManager(fake_core)
+
+        async def pm_setup(service):
+            if self.pm._stream_client is None:
+                self.pm._rtsp = Rtsp()
+                self.pm._stream_client = VerifStreamClient(self.pm._rtsp, self.pm.context, FakeStreamProtocol(), fake_core.settings)
+            return self.pm._stream_client, self.pm.context
+
+        self.pm.setup = pm_setup
+        if with_client:              # a stream is already running
+            await pm_setup(None)
         disp = ProtocolStateDispatcher(Protocol.RAOP, core)
         self.other = ProtocolStateDispatcher(Protocol.Companion, core)
         orig_dispatch = disp.dispatch
@@ -549,7 +632,7 @@ class RaopRig(Rig):
         def dispatch(state, value):
             if state == UpdatedState.Volume:
                 rig.ev("wire:" + tok(rig.pm.context.volume))
-                if not with_client:
+                if rig.pm.stream_client is None:
                     rig.sent.append(rig.pm.context.volume)
                 rig.ev("disp:" + tok(value))
             return orig_dispatch(state, value)
@@ -565,6 +648,7 @@ class RaopRig(Rig):
 
         self.audio.set_volume = set_volume
         self.atv = await make_atv(core, Protocol.RAOP, self.audio)
+        self.stream = RaopStream(fake_core, None, self.audio, self.pm)
 
         def on_report(message):      # registered last: runs right after RaopAudio._volume_changed
             rig.entries.append(["p:" + tok(message.value), rig.pending_logs])
@@ -575,7 +659,31 @@ class RaopRig(Rig):
 
     def report(self, x):
         from pyatv.core import UpdatedState
+        self.last_set = None
         self.other.dispatch(UpdatedState.Volume, x)
+
+    def _read(self):
+        try:
+            return self.atv.audio.volume
+        except Exception as exc:
+            return "raise:" + err_class(exc)
+
+    async def stream_start(self, init):
+        """One complete RaopStream.stream_file; the receiver advertises initialVolume=init
+        (None: does not advertise).  Records what the stream-start oracle needs."""
+        self.receiver_info = {} if init is None else {"initialVolume": init}
+        before, nsent, changed = self._read(), len(self.sent), bool(self.recv)
+        self.begin("t:" + ("none" if init is None else tok(init)))
+        raised = None
+        try:
+            await self.stream.stream_file("verif.wav")
+        except Exception as exc:
+            raised = err_class(exc)
+            self.ev("raise:" + raised)
+        finally:
+            self.cur = None
+        self.stream_checks.append({"init": init, "before": before, "after": self._read(), "changed": changed,
+                                   "last_set": self.last_set, "sent": self.sent[nsent:], "raised": raised})
 
 
 class MrpRig(Rig):
@@ -638,28 +746,44 @@ class MrpRig(Rig):
         self.initial_volume = self.audio._volume
         return self
 
-    async def device_reports(self, device_level):
-        """The device sends VolumeDidChange(device_level in 0..1); `_volume` becomes what the
-        real handler computes from it — that value is the model's `report`."""
+    async def device_reports(self, device_level, uid="verif-uid"):
+        """The device sends VolumeDidChange(device_level in 0..1) for output device `uid`.  For
+        our UID `_volume` becomes what the real handler computes from it — that value is the
+        model's `report`; for any other UID it is the model's `reportOther`."""
         msg = self.protobuf.ProtocolMessage()
         msg.type = self.protobuf.ProtocolMessage.VOLUME_DID_CHANGE_MESSAGE
-        msg.inner().outputDeviceUID = "verif-uid"
+        msg.inner().outputDeviceUID = uid
         try:
             msg.inner().volume = device_level
         except Exception:
             return
         await self.proto.listeners[self.protobuf.VOLUME_DID_CHANGE_MESSAGE](msg)
-        self.entries.append(["p:" + tok(self.audio._volume), []])
+        if uid == "verif-uid":
+            self.entries.append(["p:" + tok(self.audio._volume), []])
+        else:
+            self.entries.append(["o:" + tok(msg.inner().volume * 100.0), []])
 
 
 LEVEL_POOL = [0.0, -0.0, 100.0, 5.0, 95.0, 2.5, 97.5, 4.999999999999999, 95.00000000000001, 33.0, 50.0, 1 / 3, 99.9,
               5e-324, 1e-300, 1e-9, 100.00000000000001, -5e-324, -1.0, 101.0, 150.0, -50.0, NAN, INF, -INF, 1e30]
 
 
-def random_history(rng, n):
+INITIAL_POOL = [None, None, -15.0, -30.0, 0.0, -144.0, -20.5, -7.25, -50.0, 5.0, NAN, INF, -INF]
+OTHER_UIDS = ["other-speaker", "", "verif-uid-2", "VERIF-UID"]
+
+
+def random_history(rng, n, proto="raop"):
     ops = []
     for _ in range(n):
         k = rng.random()
+        if proto == "raop" and rng.chance(0.12):
+            ops.append(("stream", rng.choice(INITIAL_POOL)))
+            if rng.chance(0.7):
+                ops.append(("read", None))
+            continue
+        if proto == "mrp" and rng.chance(0.15):
+            ops.append(("other", rng.choice(LEVEL_POOL) if rng.chance(0.5) else rng.uniform(-20, 120)))
+            continue
         if k < 0.22:
             x = rng.choice(LEVEL_POOL) if rng.chance(0.5) else rng.uniform(-3, 103)
             ops.append(("set", x))
@@ -680,8 +804,14 @@ async def run_raop_history(ops, with_client, burst=()):
     for i, (op, x) in enumerate(ops):
         if op == "report":
             rig.report(x)
+        elif op == "stream":
+            await rig.stream_start(x)
         else:
             await rig.user_op(op, x)
+            if op == "set" and in_pct(x):
+                rig.last_set = x
+            elif op != "read":
+                rig.last_set = None
         if i not in burst:
             await rig.flush()
     await rig.flush()
@@ -693,6 +823,8 @@ async def run_mrp_history(ops, initial):
     for op, x in ops:
         if op == "report":
             await rig.device_reports(x / 100.0 if math.isfinite(x) else x)
+        elif op == "other":
+            await rig.device_reports(x / 100.0 if math.isfinite(x) else x, uid=OTHER_UIDS[int(abs(x)) % len(OTHER_UIDS) if math.isfinite(x) else 0])
         else:
             if op == "set" and x is not None and isinstance(x, float) and math.isfinite(x) and int(x * 7) % 11 == 0:
                 rig.hostile = (x - 60.0) / 100.0      # now and then the device answers with nonsense
@@ -714,8 +846,8 @@ def history_problems(proto, ops, rig, utils):
     for v in rig.rets:
         if not in_pct(v):
             problems.append((f"{proto}:read-out-of-range", f"audio.volume returned {v!r}"))
-    user = [e for e in rig.entries if not e[0].startswith("p:")]
-    uops = [o for o in ops if o[0] != "report"]
+    user = [e for e in rig.entries if not e[0].startswith(("p:", "o:"))]
+    uops = [o for o in ops if o[0] not in ("report", "other")]
     for (op, x), (_t, evs) in zip(uops, user):
         raised = [e[6:] for e in evs if e.startswith("raise:")]
         if op == "set":
@@ -725,6 +857,30 @@ def history_problems(proto, ops, rig, utils):
                 problems.append((f"{proto}:set-wrong-exception", f"set_volume({x!r}) -> {evs} (ProtocolError required)"))
         elif op == "read" and raised and raised != ["protocol"]:
             problems.append((f"{proto}:read-wrong-exception", f"audio.volume raised {raised}"))
+    # stream start: a level the user set (or any level already stored through set_volume) must
+    # survive the start, whatever the receiver advertises, and the receiver must be sent it
+    def pct_of(d):
+        return 0.0 if d < -30.0 else (d + 30.0) * 100.0 / 30.0
+
+    for chk in getattr(rig, "stream_checks", []):
+        after, want = chk["after"], None
+        if isinstance(after, str) and after != "raise:protocol":
+            problems.append((f"{proto}:read-wrong-exception", f"audio.volume {after} after a stream start (initialVolume={chk['init']!r})"))
+        if chk["last_set"] is not None:
+            want, why = chk["last_set"], f"the user set {chk['last_set']!r}"
+        elif chk["changed"] and isinstance(chk["before"], float):
+            want, why = chk["before"], f"the level was {chk['before']!r} before the start"
+        if want is None:
+            continue
+        where = f"stream start with receiver initialVolume={chk['init']!r}: {why}"
+        if chk["raised"]:
+            problems.append((f"{proto}:stream-start-raises", f"{where}, stream_file raised {chk['raised']}"))
+        elif not isinstance(after, float) or abs(after - want) > TOL_READBACK:
+            problems.append((f"{proto}:stream-start-loses-level", f"{where}, audio.volume reads {after!r} afterwards"))
+        elif not any(isinstance(d, float) and abs(pct_of(d) - want) <= TOL_READBACK for d in chk["sent"]):
+            problems.append((f"{proto}:stream-start-level-not-sent", f"{where}, the receiver was sent {chk['sent']!r}"))
+    if getattr(rig, "deferred", None):
+        problems.append((f"{proto}:stream-start-level-not-sent", f"set_volume failed at stream start, level deferred: {rig.deferred!r}"))
     return problems
 
 
@@ -772,19 +928,31 @@ def check_histories(ctx, utils, only=None):
             ("raop", [("set", 98.0), ("up", None), ("up", None), ("read", None), ("set", 2.0), ("down", None), ("down", None), ("read", None)], {"client": True}),
             ("raop", [("set", 50.0), ("up", None), ("read", None)], {"client": False, "burst": [0, 1]}),
             ("mrp", [("up", None), ("read", None), ("down", None)], {"initial": 0.5}),
+            ("mrp", [("report", 150.0), ("other", 30.0), ("down", None), ("report", -50.0), ("other", 70.0), ("up", None)], {"initial": 0.5}),
+            ("mrp", [("other", 150.0), ("up", None), ("other", NAN), ("down", None), ("read", None)], {"initial": 0.5}),
             ("mrp", [("report", -50.0), ("read", None), ("up", None), ("down", None)], {"initial": 0.5}),
             ("mrp", [("report", NAN), ("read", None), ("up", None), ("down", None)], {"initial": 0.5}),
             ("mrp", [("report", 150.0), ("down", None), ("report", INF), ("down", None), ("up", None)], {"initial": 0.5}),
             ("mrp", [("set", 98.0), ("up", None), ("up", None), ("set", 2.0), ("down", None), ("down", None)], {"initial": 0.2}),
+        ]
+        for lvl in (0.0, 100.0, 50.0, 33.0, 99.9, 5e-324, 1 / 3):       # set, start streaming, read back
+            for init in (-15.0, None, -144.0, 0.0):
+                fixed.append(("raop", [("set", lvl), ("stream", init), ("read", None)], {"client": False}))
+        fixed += [
+            ("raop", [("stream", -15.0), ("read", None), ("up", None), ("stream", -30.0), ("read", None)], {"client": False}),
+            ("raop", [("stream", None), ("read", None)], {"client": False}),
+            ("raop", [("stream", 5.0), ("read", None), ("stream", NAN), ("read", None), ("stream", -INF), ("read", None)], {"client": False}),
+            ("raop", [("report", 100.0), ("stream", -15.0), ("read", None)], {"client": False}),
+            ("raop", [("set", 100.0), ("stream", -15.0), ("read", None)], {"client": True}),
         ]
         todo += fixed
         for _ in range(ctx.scale(600, 15000)):
             n = rng.randint(1, ctx.scale(14, 30))
             if rng.chance(0.6):
                 burst = sorted(rng.sample(range(n), rng.randint(0, n // 2))) if rng.chance(0.3) else []
-                todo.append(("raop", random_history(rng, n), {"client": rng.chance(0.5), "burst": burst}))
+                todo.append(("raop", random_history(rng, n, "raop"), {"client": rng.chance(0.5), "burst": burst}))
             else:
-                todo.append(("mrp", random_history(rng, n), {"initial": rng.choice([0.0, 1.0, 0.5, 0.33, 0.97, 0.02])}))
+                todo.append(("mrp", random_history(rng, n, "mrp"), {"initial": rng.choice([0.0, 1.0, 0.5, 0.33, 0.97, 0.02])}))
 
     async def run_all():
         out = []
@@ -902,11 +1070,14 @@ def run(ctx):
     from pyatv import support
     from pyatv.protocols.airplay import utils
 
-    check_conversions(ctx, utils, support)
-    check_guards(ctx)
-    check_companion(ctx)
-    check_histories(ctx, utils)
-    check_reachable(ctx, utils)
+    try:
+        check_conversions(ctx, utils, support)
+        check_guards(ctx)
+        check_companion(ctx)
+        check_histories(ctx, utils)
+        check_reachable(ctx, utils)
+    finally:
+        unpatch_raop()
 
 
 def replay(ctx, failure):
